@@ -3,7 +3,7 @@
    iteration order the Go runtime happens to use; the loaders process the lists in that order (later assignments to
    the same key overwrite earlier ones).  "Independent of map iteration order" = invariant under Permutation. *)
 From Coq Require Import List ZArith Bool Permutation.
-From Bfe Require Import lib.Val lib.Bytes model.ConfLoad model.ConfLoadWire proofs.ConfLoadProofs run.RunC14.
+From Bfe Require Import lib.Val lib.Bytes model.ConfLoad model.ConfLoadWire proofs.ConfLoadProofs proofs.ConfLoadRunProofs run.RunC14.
 Import ListNotations.
 Open Scope Z_scope.
 
@@ -82,3 +82,21 @@ Example C14_guard_inhabited :
   order_class w_vip_free = 0 /\ route_keys_distinct w_vip_free = true /\ accepted w_vip_free = true
   /\ same_up_to_map_order w_vip_free w_vip_free_swapped.
 Proof. exact guard_inhabited. Qed.
+
+(* Tie to the harness predicates: for an input outside the finding classes, whatever order the implementation's maps
+   take (fs', pick'), the one summary it can show equals the model's, so the observed set is the model output, agrees
+   with it and satisfies prop_C14 ("exactly one behaviour over all loads"). *)
+Theorem C14_prop_of_model : forall i fs ps fs' pick',
+  d_c14 i = Some (fs, ps) -> kf_C14 i = 0 -> route_keys_distinct fs = true ->
+  same_up_to_map_order fs fs' -> iteration_order pick' ->
+  let o := VL [summary pick' fs' ps] in
+  o = run_C14 i /\ agree_C14 i o = true /\ prop_C14 i o = true.
+Proof. exact c14_any_order. Qed.
+Print Assumptions C14_prop_of_model.
+
+(* bal_gslb.Init ranges over a Go map of sub-clusters; because the list is then sorted by name, the resulting
+   (sub-cluster order, totalWeight, single, avail) does not depend on the iteration order (names are map keys: distinct). *)
+Theorem C14_gslb_init_order_independent : forall conf conf',
+  NoDup (map fst conf) -> Permutation conf conf' -> gslb_init conf = gslb_init conf'.
+Proof. exact gslb_init_perm. Qed.
+Print Assumptions C14_gslb_init_order_independent.
